@@ -435,7 +435,7 @@ func markerToBox(element *utils.HTMLNode, state *tree.PageState, parentStyle pr.
 				*children = append(*children, markerBox)
 			}
 		}
-		if len(*children) == 0 && style.GetListStyleType().Name != "none" {
+		if lst := style.GetListStyleType(); len(*children) == 0 && !(lst.Type == "" && lst.Name == "none") {
 			counterValue_, has := state.CounterValues["list-item"]
 			if !has {
 				counterValue_ = []int{0}
@@ -588,7 +588,7 @@ outerLoop:
 			if needCollectMissing {
 				collectMissingCounter(counterName, counterValues, missingCounters)
 			}
-			if counterStyle.Name == "none" {
+			if counterStyle.Type == "" && counterStyle.Name == "none" { // the keyword, not the string "none"
 				continue
 			}
 			cv, has := counterValues[counterName]
@@ -602,7 +602,7 @@ outerLoop:
 			if needCollectMissing {
 				collectMissingCounter(counterName, counterValues, missingCounters)
 			}
-			if counterStyle.Name == "none" {
+			if counterStyle.Type == "" && counterStyle.Name == "none" { // the keyword, not the string "none"
 				continue
 			}
 			vs, has := counterValues[counterName]
